@@ -31,6 +31,9 @@ Modelled rather than verified (the theorems do not speak about these):
 * `PredRecord.predict` itself does not check the cache policy's length; the check
   (`FloatCachePolicy::get`) is modelled where `traverse_edge` reaches it (`cacheAccepts`).
 -/
+import Compass.Gen.Decisions
+import Compass.Proofs.Num
+import Compass.Model.Energy
 import Compass.Proofs.Energy
 
 namespace Compass
@@ -1188,6 +1191,27 @@ example : ∃ b v', Battery.ofConfig (60 : ℚ) .kilowattHours = .ok b
   · intro st' h
     exact soc_bounds_configured exSvc exEng _ exRoute exNoCache st' 60 .kilowattHours _ _ _ (.num 50) hb
       (Or.inl ⟨cxRec, rfl⟩) hq h
+
+end C08
+end Compass
+
+namespace Compass
+namespace C08
+open Src
+
+/-! ### Source decision ties
+
+The relational operators at the named comparison sites of the Rust source are re-extracted on every run
+by `tools/gen_model.py` into `Compass/Gen/Decisions.lean` (`Src.<site> : Src.Rel`).  Each theorem below
+says that the hand-written model decides at that site by exactly the operator the source has there
+(`Rel.nat` / `Rel.int` / `Rel.num` interpret the extracted operator; an unrecognised line is `none`).  A
+source change that turns `<` into `<=`, `>` into `>=`, … at a site changes the generated constant and this
+proof obligation stops checking, whether or not a generated case lands on the tie. -/
+
+theorem src_energy_rate_floor {α : Type} [Field α] [LinearOrder α] [IsStrictOrderedRing α] [Lit α] [LawfulLit α] (sweep : List α) :
+    Energy.findMinEnergyRate sweep =
+      sweep.foldl (fun m r => if energy_rate_floor.num r m = some true then r else m) Energy.f64Max := by
+  simp [Energy.findMinEnergyRate, energy_rate_floor, Rel.num]
 
 end C08
 end Compass
